@@ -44,6 +44,8 @@ struct Spec {
     std::vector<std::string> late;      // scripts of threads that are started after the ordered ones have queued up and arrive whenever the schedule lets them
     int rendezvous = 0;                 // C12(iii): number of readers that meet at a barrier inside the read section
     int spurious = 0;                   // spurious condition-variable wake-ups the scheduler may generate per execution (each costs 1 from the bound)
+    bool audit = false;                 // stateful pass without cutting off (every schedule executed): must visit exactly the same number of states
+    bool stateful = false;              // all schedules (no preemption bound), pruned at visited states; oracles kept online in cells
 };
 
 int pred_parked(void *arg) { return vs_thread_waiting((int)(long)arg); }
@@ -127,6 +129,101 @@ void check_share() {
     }
 }
 
+// ------------------------------------------------------------------ stateful pass: all schedules, oracles as functions of the state
+// The stateless passes judge a schedule by its event log.  When executions are cut off at states that were reached before, an oracle may only depend on the state; the
+// FIFO and sharing oracles are therefore kept online in scheduler cells (which are part of the state fingerprint):
+//   per thread t: OUT = kind of its request that is issued but not yet granted, GEN = how many requests it has issued, WAIT = it has parked inside lock() for that request,
+//   SNAP = for every other thread the generation of the request that was already waiting when t issued its own, TICKET = the ticket number the waiter holds in its local
+//   variable `id` (read from the Resource at the moment it parks, while it still owns the mutex) - the only local of tulz code that outlives a scheduling point.
+enum { CELL_WACTIVE = 5, CELL_WDONE = 6, CELL_T0 = 8, CELLS_PER_T = 6, C_OUT = 0, C_GEN = 1, C_WAIT = 2, C_SNAP = 3, C_TICKET = 4, C_WSEEN = 5, MAXST = 9 };
+inline int tc(int t, int which) { return CELL_T0 + t * CELLS_PER_T + which; }
+bool g_st_share;
+
+void st_park(int tid) {
+    if (tid < 0 || tid >= MAXST || !g_res) return;
+    if (tid == 0) vs_fail("idle check: the main thread had to wait although every lock had been released");      // the main thread only locks first (as the holder) or last (idle check)
+    long out = vs_cell_get(tc(tid, C_OUT));
+    if (!out || vs_cell_get(tc(tid, C_WAIT))) return;
+    vs_cell_set(tc(tid, C_WAIT), 1);
+    vs_cell_set(tc(tid, C_TICKET), (long)g_res->m_idCounter);      // id + 1
+    if (g_st_share && out == 'R' && vs_cell_get(CELL_WACTIVE) == 0 && vs_cell_get(CELL_WDONE) == vs_cell_get(tc(tid, C_WSEEN)))
+        vs_fail("reader sharing violated: the read request of t%d has to wait although no write request is active or waiting (and none was since the request was issued)", tid);
+}
+
+void st_section(Resource &res, char op, const Spec &s, void (*inside)(const Spec &) = nullptr) {
+    int me = vs_self();
+    if (me < 0 || me >= MAXST) vs_fail("harness error: too many threads for the stateful pass");
+    // issue
+    vs_cell_add(tc(me, C_GEN), 1); vs_cell_set(tc(me, C_OUT), op); vs_cell_set(tc(me, C_WAIT), 0);
+    long snap = 0;
+    for (int a = 0; a < MAXST; a++) if (a != me && vs_cell_get(tc(a, C_WAIT))) snap |= (vs_cell_get(tc(a, C_GEN)) & 7) << (3 * a);
+    vs_cell_set(tc(me, C_SNAP), snap);
+    if (op == 'W') vs_cell_add(CELL_WACTIVE, 1); else vs_cell_set(tc(me, C_WSEEN), vs_cell_get(CELL_WDONE));
+    vs_event(EV_ISSUE, op, me);
+    auto granted = [&] {
+        vs_event(EV_ACQ, op, me);
+        if (s.check_fifo) for (int a = 0; a < MAXST; a++) {
+            long g = (snap >> (3 * a)) & 7;
+            if (g && vs_cell_get(tc(a, C_WAIT)) && (vs_cell_get(tc(a, C_GEN)) & 7) == g && !(vs_cell_get(tc(a, C_OUT)) == 'R' && op == 'R'))
+                vs_fail("FIFO violated: the %c request of t%d was already waiting when t%d issued its %c request, yet t%d was granted first", (char)vs_cell_get(tc(a, C_OUT)), a, me, op, me);
+        }
+        vs_cell_set(tc(me, C_OUT), 0); vs_cell_set(tc(me, C_WAIT), 0); vs_cell_set(tc(me, C_TICKET), 0); vs_cell_set(tc(me, C_SNAP), 0);
+        enter(op); if (inside) inside(s); else vs_point(1); leave(op);
+        vs_event(EV_REL, op, me);
+    };
+    if (s.guards) {
+        if (op == 'R') { tulz::rwp::ReadLock lock{res}; granted(); } else { tulz::rwp::WriteLock lock{res}; granted(); }
+    } else {
+        if (op == 'R') res.lockRead(); else res.lockWrite();
+        granted();
+        if (op == 'R') res.unlockRead(); else res.unlockWrite();
+    }
+    if (op == 'W') { vs_cell_add(CELL_WACTIVE, -1); vs_cell_add(CELL_WDONE, 1); }
+    vs_event(EV_DONE, op, me);
+}
+
+void run_stateful(const Spec &s) {
+    auto res = std::make_unique<Resource>();
+    g_res = res.get(); g_st_share = s.check_share;
+    vs_cell_set(CELL_EXPECT, s.check_excl ? 1 : 0);
+    std::vector<std::thread> th;
+    int nreq = (int)s.scripts.size();
+    if (s.rendezvous) {
+        int k = s.rendezvous;
+        res->lockWrite(); enter('W'); vs_cell_add(CELL_WACTIVE, 1);
+        for (int i = 0; i < k; i++) {
+            th.emplace_back([&res, &s] { st_section(*res, 'R', s, [](const Spec &sp) { vs_cell_add(CELL_BARRIER, 1); vs_event(EV_BARRIER, 0, 0); vs_block_until(pred_barrier, (void *)(long)sp.rendezvous); }); });
+            vs_block_until(pred_parked, (void *)(long)(i + 1));
+        }
+        for (size_t i = 0; i < s.late.size(); i++) th.emplace_back([&res, &s, i] { for (char op : s.late[i]) st_section(*res, op, s); });
+        if (!s.late.empty()) vs_point(2);
+        leave('W'); res->unlockWrite(); vs_cell_add(CELL_WACTIVE, -1); vs_cell_add(CELL_WDONE, 1);
+    } else if (s.holder) {
+        // the holder's own section is written out here: it starts the requesters while it holds
+        if (s.holder == 'R') res->lockRead(); else res->lockWrite();
+        enter(s.holder);
+        if (s.holder == 'W') vs_cell_add(CELL_WACTIVE, 1);
+        for (int i = 0; i < nreq; i++) {
+            th.emplace_back([&res, &s, i] { for (char op : s.scripts[i]) st_section(*res, op, s); });
+            if (s.ordered_arrival) vs_block_until(pred_parked, (void *)(long)(i + 1));
+        }
+        for (size_t i = 0; i < s.late.size(); i++) th.emplace_back([&res, &s, i] { for (char op : s.late[i]) st_section(*res, op, s); });
+        vs_point(2);
+        leave(s.holder);
+        if (s.holder == 'R') res->unlockRead(); else res->unlockWrite();
+        if (s.holder == 'W') { vs_cell_add(CELL_WACTIVE, -1); vs_cell_add(CELL_WDONE, 1); }
+    } else {
+        for (int i = 0; i < nreq; i++) th.emplace_back([&res, &s, i] { for (char op : s.scripts[i]) st_section(*res, op, s); });
+    }
+    for (auto &t : th) t.join();
+    if (s.check_idle) {
+        // the Resource must be idle again: each of these would park forever otherwise (nobody is left to wake us)
+        res->lockWrite(); res->unlockWrite();
+        res->lockRead(); res->lockRead(); res->unlockRead(); res->unlockRead();
+    }
+    g_res = nullptr;
+}
+
 void run(const Spec &s) {
     auto res = std::make_unique<Resource>();
     g_res = res.get();
@@ -189,7 +286,9 @@ void add(VSuite &suite, Spec s, int bound, const std::string &flavour, bool unlo
     VProgram p;
     std::string nm = s.rendezvous ? "rendezvous" + std::to_string(s.rendezvous) : (s.holder ? std::string("hold") + s.holder + (s.ordered_arrival ? "-ordered-" : "-") : std::string()) + join(s.scripts);
     if (!s.late.empty()) nm += "+late-" + join(s.late);
-    p.name = nm + (s.guards ? "-guards" : "") + (s.spurious ? "+spurious" : "");
+    p.name = nm + (s.guards ? "-guards" : "") + (s.spurious ? "+spurious" : "") + (s.stateful ? "@all" : "");
+    p.stateful = s.stateful; if (s.stateful) p.park_cb = st_park;
+    p.stateful_audit = s.audit; if (s.audit) p.name += "-audit";
     p.spurious = s.spurious;
     p.describe = s.rendezvous ? "main holds the write lock while " + std::to_string(s.rendezvous) + " readers queue up one after the other; after it unlocks the readers wait for each other inside the read section" +
                                 (s.late.empty() ? std::string() : "; late threads [" + join(s.late) + "] are started while main still holds and issue their requests at any time")
@@ -199,8 +298,9 @@ void add(VSuite &suite, Spec s, int bound, const std::string &flavour, bool unlo
                    (s.spurious ? "; one spurious wake-up of a thread waiting on the condition variable may happen anywhere (costs 1 like a preemption)" : "");
     p.bound = bound;
     p.unlock_points = unlock_points;
-    p.body = [s] { run(s); };
+    p.body = [s] { if (s.stateful) run_stateful(s); else run(s); };
     p.state_cb = flavour == "tsan" ? nullptr : resource_state;
+    if (s.stateful) p.describe += "; ALL schedules without a preemption bound: the depth-first search is cut off at every state (thread positions, scheduler objects, oracle cells, the Resource's private fields, the ticket numbers of the waiters) that was reached before";
     suite.programs.push_back(std::move(p));
 }
 
@@ -273,6 +373,17 @@ bool provider(const std::string &prop, const std::string &tier, const std::strin
         { Spec s = base; s.rendezvous = 2; s.late = {"R", "R"}; add(suite, s, thorough ? 2 : 1, flavour); }
         { Spec s = base; s.rendezvous = 3; s.late = {"R"}; add(suite, s, thorough ? 2 : 1, flavour); }
         if (thorough) { Spec s = base; s.rendezvous = 2; s.late = {"RR"}; add(suite, s, 2, flavour); }
+        if (flavour == "plain") {
+            // stateful pass: ALL schedules
+            for (int n = 2; n <= (thorough ? 6 : 5); n++) { Spec s = base; s.scripts.assign(n, "R"); s.stateful = true; add(suite, s, 0, flavour); }
+            for (auto &v : multisets(3, {"R", "W"})) { Spec s = base; s.scripts = v; s.stateful = true; add(suite, s, 0, flavour); }
+            for (auto &v : multisets(4, {"R", "W"})) { Spec s = base; s.scripts = v; s.stateful = true; add(suite, s, 0, flavour); }
+            { Spec s = base; s.scripts = {"RR", "RR", "R"}; s.guards = true; s.stateful = true; add(suite, s, 0, flavour); }
+            for (int k = 2; k <= (thorough ? 4 : 3); k++) for (const char *l : {"", "R", "W"}) { Spec s = base; s.rendezvous = k; if (*l) s.late = {l}; s.stateful = true; add(suite, s, 0, flavour); }
+            { Spec s = base; s.rendezvous = 2; s.late = {"R", "R"}; s.stateful = true; add(suite, s, 0, flavour); }
+            { Spec s = base; s.rendezvous = 2; s.late = {"R"}; s.stateful = true; s.spurious = 1; add(suite, s, 0, flavour); }
+            { Spec s = base; s.scripts = {"R", "R", "W", "R"}; s.holder = 'W'; s.ordered_arrival = true; s.stateful = true; add(suite, s, 0, flavour); }
+        }
         // spurious wake-ups: a reader of a queued batch (or the writer in front of it) may wake without a notification at any time
         { Spec s = base; s.rendezvous = 2; s.spurious = 1; add(suite, s, 2, flavour); }
         if (thorough) { Spec s = base; s.rendezvous = 3; s.spurious = 1; add(suite, s, 2, flavour); }
@@ -293,6 +404,32 @@ bool provider(const std::string &prop, const std::string &tier, const std::strin
     for (auto &v : multisets(3, {"R", "W"})) { Spec s = base; s.scripts = v; s.spurious = 1; add(suite, s, thorough ? 3 : 2, flavour); }
     { Spec s = base; s.scripts = {"W", "R", "R", "W"}; s.spurious = 1; add(suite, s, 2, flavour); }
     { Spec s = base; s.scripts = {"RW", "WR"}; s.spurious = 1; add(suite, s, 2, flavour); }
+    // ---- stateful pass: ALL schedules of these programs (no preemption bound)
+    if (flavour == "plain") {
+        for (auto &v : multisets(3, {"R", "W"})) { Spec s = base; s.scripts = v; s.stateful = true; add(suite, s, 0, flavour); }
+        if (getenv("VERIF_AUDIT")) for (auto &v : multisets(3, {"R", "W"})) { Spec s = base; s.scripts = v; s.stateful = true; s.audit = true; add(suite, s, 0, flavour); }
+        for (auto &v : multisets(2, {"RR", "RW", "WR", "WW"})) { Spec s = base; s.scripts = v; s.stateful = true; add(suite, s, 0, flavour); }
+        for (auto &v : multisets(4, {"R", "W"})) { Spec s = base; s.scripts = v; s.stateful = true; add(suite, s, 0, flavour); }
+        { Spec s = base; s.scripts = {"W", "R", "R", "W"}; s.stateful = true; add(suite, s, 0, flavour); }
+        { Spec s = base; s.scripts = {"R", "W", "R"}; s.guards = true; s.stateful = true; add(suite, s, 0, flavour); }
+        for (auto &v : multisets(3, {"R", "W"})) { Spec s = base; s.scripts = v; s.stateful = true; s.spurious = 1; add(suite, s, 0, flavour); }
+        for (auto &v : multisets(3, {"RW", "WR"})) { Spec s = base; s.scripts = v; s.stateful = true; add(suite, s, 0, flavour); }
+        if (thorough) {
+            { Spec s = base; s.scripts = {"W", "R", "R", "W", "R"}; s.stateful = true; add(suite, s, 0, flavour); }
+            for (auto &v : multisets(5, {"R", "W"})) { Spec s = base; s.scripts = v; s.stateful = true; add(suite, s, 0, flavour); }
+            for (auto &v : multisets(3, {"RR", "RW", "WR", "WW"})) { Spec s = base; s.scripts = v; s.stateful = true; add(suite, s, 0, flavour); }
+            for (auto &v : multisets(4, {"R", "W"})) { Spec s = base; s.scripts = v; s.stateful = true; s.spurious = 1; add(suite, s, 0, flavour); }
+        }
+        if (prop == "C03" || prop == "C02") {
+            const char *shapes[][2] = {{"W", "R,W,R"}, {"W", "R,R,W"}, {"R", "W,R,R"}, {"R", "W,R,W"}, {"W", "W,R,W"}, {"R", "W,W,R"}};
+            for (auto &sh : shapes) for (const char *l : {"", "R", "W"}) {
+                Spec s = base; s.holder = sh[0][0]; s.ordered_arrival = true; s.stateful = true;
+                std::stringstream ss(sh[1]); std::string tok; while (std::getline(ss, tok, ',')) s.scripts.push_back(tok);
+                if (*l) s.late = {l};
+                add(suite, s, 0, flavour);
+            }
+        }
+    }
     if (thorough) {
         for (auto &v : multisets(5, {"R", "W"})) { Spec s = base; s.scripts = v; add(suite, s, 2, flavour); }
         { Spec s = base; s.scripts = {"W", "R", "R", "W", "R"}; add(suite, s, 2, flavour); }
